@@ -102,6 +102,11 @@ def c04Write (s : SyncCase) (r : Rec) : Option String :=
       -- adoption
       orElse (check (!isDeleting p || !r.ok) s!"adopted {r.name}, which is being deleted") fun _ =>
       orElse (check ((controllerOf p).isNone || !r.ok) s!"adopted {r.name}, which another owner controls") fun _ =>
+      -- the object that receives the reference is the orphan that was observed (same UID), not a same-named successor
+      -- (whether it matches the selector is decided on the observed object, as everywhere in Kubernetes)
+      orElse (match cachedDependent s r with
+        | some o => check (!r.ok || getUID o == getUID p) s!"adopted {r.name} with UID {getUID p}, but the orphan that was observed has UID {getUID o}"
+        | none => none) fun _ =>
       -- preceded by a live read of the parent showing the same UID and no deletion timestamp
       let fresh := s.calls.filter (fun g => g.idx < r.idx && g.verb == "get" && s.isParentTarget g && g.ok)
       check (fresh.any (fun g => getUID g.resp == uid && !isDeleting g.resp))
